@@ -41,8 +41,24 @@ def compact_tokens(width):
 def build(cfg):
     from amaranth_soc import csr
     early = []
-    mm, stubs = make_map(cfg, hook=lambda mm: early.append(csr.Multiplexer(mm, shadow_overlaps=cfg["ov"])))
-    mux = early[0] if early else csr.Multiplexer(mm, shadow_overlaps=cfg["ov"])
+
+    def construct_early(mm):
+        x = csr.Multiplexer(mm, shadow_overlaps=cfg["ov"])
+        if cfg.get("early_elab"):
+            # elaborated once (say, simulated on its own) while its map is still growing
+            from amaranth.hdl import Fragment
+            Fragment.get(x, None)
+        early.append(x)
+    mm, stubs = make_map(cfg, hook=construct_early)
+    if cfg.get("swap"):
+        # constructed over a placeholder map of the same geometry; the real map is assigned afterwards through the
+        # public setter of the bus interface
+        from amaranth_soc.memory import MemoryMap
+        mux = csr.Multiplexer(MemoryMap(addr_width=cfg["aw"], data_width=cfg["dw"], alignment=cfg.get("align", 0)),
+                              shadow_overlaps=cfg["ov"])
+        mux.bus.memory_map = mm
+    else:
+        mux = early[0] if early else csr.Multiplexer(mm, shadow_overlaps=cfg["ov"])
     m = Module()
     m.submodules.mux = mux
     bus = mux.bus
@@ -91,9 +107,17 @@ class MuxObserver:
         self.p_wdata = {k: pi[f"w_data{k}"] for k, r in enumerate(regs) if r["wr"] and f"w_data{k}" in pi}
         # letters: every input in the structural support of the probes takes all its values (register
         # values: token sets); inputs outside the cone are held at 0 (they cannot matter)
+        # The inputs the REFERENCE depends on are enumerated whatever the netlist says (a multiplexer whose probes are
+        # not connected to the bus at all has an empty structural support and would otherwise be "checked" with a
+        # single all-zero letter).
+        declared = {"addr"}
+        if "r" in self.side:
+            declared |= {"r_stb"} | {f"val{k}" for k in self.i_val}
+        if "w" in self.side:
+            declared |= {"w_stb", "w_data"}
         doms = []
         for name, w in zip(comp.in_names, comp.in_widths):
-            if name not in comp.support or w == 0:
+            if (name not in comp.support and name not in declared) or w == 0:
                 doms.append((0,))
             elif name.startswith("val") or (name == "w_data" and w > 2):
                 doms.append(self.tokens(w))
